@@ -96,7 +96,7 @@ def run(sid, props):
         sh(["git", "-C", REPO, "checkout", "--", "."])
     mp = os.path.join(d, "meta.json")
     meta = json.load(open(mp)) if os.path.exists(mp) else {"id": sid}
-    meta["checks_quick"] = results
+    meta.setdefault("checks_quick", {}).update(results)
     meta["ran"] = "git -C /repo apply seeded/%s/patch.diff; ./check <Cxx> --tier quick for each property; git -C /repo checkout -- ." % sid
     json.dump(meta, open(mp, "w"), indent=1)
     return 0
